@@ -1390,7 +1390,7 @@ class Interp:
                 return self.externals[name](xa, xk)
             except NotHandled:
                 pass  # the model does not apply to this call shape (e.g. method form x.tolist())
-        if isinstance(f, (ast.Call, ast.Subscript)):
+        if isinstance(f, (ast.Call, ast.Subscript, ast.BoolOp, ast.IfExp, ast.Lambda)):
             callee = self.eval(f)
             xa = self.eval_args(e.args)
             xk = self.eval_kwargs(e.keywords)
